@@ -42,7 +42,8 @@ def signature(fi, argmap):
         if is_concrete(v) and isinstance(concrete(v), (type(None), bool, int, str, bytes)):
             sig.append((n, 'const', concrete(v)))
         elif isinstance(v, Unk):
-            sig.append((n, 'kinds', v.kinds, tuple(sorted(f for f in v.facts if f in KEEP_FACTS)),
+            sig.append((n, 'kinds', v.kinds if v.kinds is None or 'NoneType' in v.kinds else ('nonnull', v.kinds),
+                        tuple(sorted(f for f in v.facts if f in KEEP_FACTS)),
                         tuple(sorted(map(repr, v.in_sets)))))
         else:
             sig.append((n, 'kinds', kind_of(v), (), ()))
@@ -62,8 +63,10 @@ def summarise(P, fi, stubs=None, sig=None, argmap=None):
                 args.append(sig[i][2])
                 continue
             u = Unk('p:%s' % n, taint=['P:%s' % n, 'ARG'], src=('param', n))
+            u.param_name = n
             if sig is not None:
-                u.kinds = sig[i][2]
+                k_ = sig[i][2]
+                u.kinds = k_[1] if isinstance(k_, tuple) and k_ and k_[0] == 'nonnull' else k_
                 for f in sig[i][3]:
                     u.facts.add(f)
                 a = argmap.get(n) if argmap else None
@@ -101,6 +104,7 @@ def summarise(P, fi, stubs=None, sig=None, argmap=None):
                 S.raises.append((e.exc.exc, e.site, st[-1], e.explicit, e.note))
         elif path.outcome == 'return':
             rets.append(path.value)
+    _describe.argids = {id(a): n for a, n in zip(getattr(S, '_args', []), names) if isinstance(a, Unk)}
     S.returns = _join_returns(rets, names, S)
     return S
 
@@ -122,9 +126,13 @@ def _describe(v, names):
                 hops += 1
                 continue
             break
+        enc_by = []
+        argids = getattr(_describe, 'argids', {})
+        for f in v.facts:
+            if isinstance(f, tuple) and f[0] == 'encoded-by-param':
+                enc_by.append(f[1])
         return ('unk', sorted(v.kinds) if v.kinds is not None else None, sorted(_roots(v, names)),
-                sorted(f for f in v.facts if isinstance(f, str) and f in ('truthy',)),
-                [f for f in v.facts if isinstance(f, tuple) and f[0] in ('encoded-by-param',)])
+                sorted(f for f in v.facts if isinstance(f, str) and f in ('truthy',)), sorted(set(enc_by)))
     if isinstance(v, AList):
         return ('list', sorted(_roots(v, names)))
     if isinstance(v, ADict):
@@ -155,8 +163,8 @@ def _build(desc, argmap, name):
         u = Unk(name, kinds=kind_of(a), taint=t, src=('derive', a, 'summary') if isinstance(a, Unk) else None)
         if isinstance(a, Unk):
             for f in a.facts:
-                if f in ('truthy',) or (isinstance(f, tuple) and f[0] in ('encoded-by', 'encoded-in')):
-                    pass
+                if isinstance(f, tuple) and f[0] in ('encoded-by', 'encoded-in', 'encoded-by-param'):
+                    u.facts.add(f)
         return u
     if kind == 'unk':
         t = set()
@@ -165,6 +173,12 @@ def _build(desc, argmap, name):
         u = Unk(name, kinds=desc[1], taint=t, src=('summary', name))
         for f in desc[3]:
             u.facts.add(f)
+        for pn in desc[4]:
+            a = argmap.get(pn)
+            if a is not None:
+                u.facts.add(('encoded-by', id(a)))
+                if is_concrete(a):
+                    u.facts.add(('encoded-in', concrete(a)))
         return u
     if kind == 'list':
         t = set()
@@ -187,6 +201,12 @@ def _merge_descs(descs):
     kinds = set()
     roots = set()
     unknown = False
+    encs = None
+    for d in descs:
+        if d[0] == 'unk':
+            encs = set(d[4]) if encs is None else (encs & set(d[4]))
+        else:
+            encs = set()
     for d in descs:
         if d[0] == 'const':
             kinds |= set(kind_of(d[1]) or ())
@@ -202,7 +222,7 @@ def _merge_descs(descs):
             return ('like-param-join', [x for x in descs])
         else:
             unknown = True
-    return ('unk', None if unknown else sorted(kinds), sorted(roots), [], [])
+    return ('unk', None if unknown else sorted(kinds), sorted(roots), [], sorted(encs or ()))
 
 
 def make_stub(P, fi, inner_stubs):
@@ -211,6 +231,16 @@ def make_stub(P, fi, inner_stubs):
         fr = Frame(fi_)
         I.bind_params(fr, fi_, args, kwargs, node)
         argmap = dict(fr.locals)
+        # decide None-ness of arguments first: summaries are then computed (and
+        # cached) for the precise case, which keeps value facts such as
+        # "encoded with this very argument" path-sensitive
+        for n_, v_ in list(argmap.items()):
+            if isinstance(v_, Unk) and not v_.has_const and v_.may_be('NoneType') and 'truthy' not in v_.facts \
+                    and (v_.kinds is None or len(v_.kinds) > 1):
+                if I.choose(2, 'arg-none:%s' % n_) == 0:
+                    v_.exclude(['NoneType'])
+                else:
+                    v_.pin(None)
         sig = signature(fi_, argmap)
         key = (P.digest, fi_.qualname, sig)
         if key not in _CACHE:
